@@ -240,17 +240,9 @@ def run(ctx):
             if same and hash(f) != hash(g):
                 ctx.violation({"line1": lines[i], "line2": lines[j]}, "hash", None)
     # features that come out of a DATABASE under different keys but print the same line are equal and hash alike
-    import gffutils
-    from .. import dbio
-    twin = "chr1\tsrc\texon\t5\t9\t.\t+\t.\tParent=t1"
-    with dbio.quiet():
-        tdb = gffutils.create_db(twin + "\n" + twin + "\n", ":memory:", from_string=True, merge_strategy="create_unique")
-    tf = list(tdb.all_features())
-    if len(tf) == 2 and str(tf[0]) == str(tf[1]) and tf[0].id != tf[1].id:
-        if not (tf[0] == tf[1]) or tf[0] != tf[1]:
-            ctx.violation({"line1": twin, "line2": twin, "from_database": True}, "equality", {"ids": [tf[0].id, tf[1].id]})
-        elif hash(tf[0]) != hash(tf[1]):
-            ctx.violation({"line1": twin, "line2": twin, "from_database": True}, "hash", None)
+    bad = twin_clause()
+    if bad:
+        ctx.violation({"line1": TWIN, "line2": TWIN, "from_database": True}, bad, None)
     # the same for objects with a HISTORY: hashed / compared / put in a set first, edited afterwards (a column, an attribute value, a new key),
     # then compared with a fresh parse of what they print now
     for i, l in enumerate(lines):
@@ -260,6 +252,23 @@ def run(ctx):
     ctx.count(("eq", len(feats)), True, n=len(feats) ** 2 + len(lines))
     ctx.assumptions += ["NaN-like and non-finite numeric strings are outside the numeric_sort domain",
                         "equality pairs use lines inside the C07 grammar, where printing reproduces the line"]
+
+
+TWIN = "chr1\tsrc\texon\t5\t9\t.\t+\t.\tParent=t1"
+
+
+def twin_clause():
+    import gffutils
+    from .. import dbio
+    with dbio.quiet():
+        tdb = gffutils.create_db(TWIN + "\n" + TWIN + "\n", ":memory:", from_string=True, merge_strategy="create_unique")
+    tf = list(tdb.all_features())
+    if len(tf) == 2 and str(tf[0]) == str(tf[1]) and tf[0].id != tf[1].id:
+        if not (tf[0] == tf[1]) or tf[0] != tf[1]:
+            return "equality"
+        if hash(tf[0]) != hash(tf[1]):
+            return "hash"
+    return None
 
 
 def edited_object_clause(line, variant):
@@ -292,6 +301,8 @@ def replay(ctx, rec):
     c = rec["case"]
     if "line_edit" in c:
         return edited_object_clause(c["line_edit"], c["variant"]) is not None
+    if c.get("from_database"):
+        return twin_clause() is not None
     if "line1" in c:
         from gffutils.feature import feature_from_line
         f, g = feature_from_line(c["line1"]), feature_from_line(c["line2"])
